@@ -11,10 +11,15 @@ open Corerad
       badhop  the same solicitation with hop limit 64 is not answered and is counted invalid once  (C09)
       nsol    a neighbor solicitation never reaches the advertiser (ICMPv6 filter)                 (C09)
       fwd     once vf0 no longer forwards, the solicited RA has router lifetime 0                  (C04)
-      final   termination: one final multicast RA with lifetime 0, nothing after it, Run = nil     (C08) -/
+      autoconf the real sysctl: 1 before, 0 while the connection is held                          (C11)
+      relink  link down (real rtnetlink event through the Watcher) then up: autoconf put back while
+              the connection is gone, then the interface is served again                           (C10, C11, C19)
+      final   termination: one final multicast RA with lifetime 0, nothing after it, Run = nil     (C08)
+      restored the real sysctl has its initial value after Run returned                            (C11) -/
 def expected : List (String × List String) :=
   [("init", ["1", "255", "1", "1800", "2", "1"]), ("rs", ["1", "1"]), ("badhop", ["0", "1"]),
-   ("nsol", ["0", "0"]), ("fwd", ["0"]), ("final", ["1", "0", "nil"])]
+   ("nsol", ["0", "0"]), ("fwd", ["0"]), ("autoconf", ["1", "0"]), ("relink", ["1", "1", "1800"]),
+   ("final", ["1", "0", "nil"]), ("restored", ["1"])]
 
 def why : String → String
   | "init" => "the initial RA is not a multicast RA with hop limit 255 from a link-local source carrying the configured lifetime, the prefix and the source link-layer address"
@@ -22,6 +27,9 @@ def why : String → String
   | "badhop" => "a solicitation with hop limit 64 was answered, or was not counted as invalid exactly once"
   | "nsol" => "a neighbor solicitation reached the advertiser (ICMPv6 filter) or was answered"
   | "fwd" => "the RA sent while the interface does not forward does not have router lifetime 0"
+  | "autoconf" => "the interface's IPv6 autoconfiguration is not disabled while the advertiser holds its connection (real sysctl)"
+  | "relink" => "after the link went down and came back the interface was not served again (no fresh multicast RA with the configured lifetime), or autoconfiguration was not put back while the connection was gone"
+  | "restored" => "after Run returned the interface's IPv6 autoconfiguration does not have its initial value (real sysctl)"
   | "final" => "termination: no final zero-lifetime RA, something after it, or Run did not return nil"
   | s => s
 
